@@ -146,13 +146,14 @@ theorem pdf_positions_are_prefix_sums (wlen hlen glen dlen clen : Nat) :
 
 example : pdfPositions 2 2 487 21 39 = [16, 65, 122, 207, 769, 931] := by decide
 
-/-- FULL STATEMENT, NOT PROVED (kept visible): the judge accepts the model's SVG document of every symbol-shaped
-    matrix at every positive scale.  Proved above are its arithmetic ingredients (`runs_cover`, `rel_abs`,
-    `y_flip`, `page_box`, `pdf_offsets`); missing is the link through the *token* level — that the judge's
-    interpreters (`Spec.Vector.svgPath`, `psRun`, `pdfRun` over strings parsed by `parseDecimal`) compute `svgAbs` /
-    `epsAbs` on the model's tokens, and that `snap 0 ((s·k)/s) = k` for the rational grid — plus maximality of the
-    runs (no dark run split in two).  On the real code this statement is what `judge svg|eps|pdf|tex` evaluates
-    document by document. -/
+/-- FULL STATEMENT (kept as a `def` so that it stays visible here): the judge accepts the model's SVG document of every
+    symbol-shaped matrix at every positive scale.  PROVED in Props/C10Accept.lean (`judge_accepts_model_svg_proved`;
+    helpers in Proofs/VectorAccept*.lean): the link through the *token* level — the judge's interpreter
+    `Spec.Vector.svgPath` over strings parsed by `parseDecimal` computes `svgAbs` on the model's tokens —, the
+    geometry (`snap 0 ((s·k)/s) = k` on the rational grid) and the coverage (from `runs_cover`, `raster_row`,
+    `runs_maximal`, `page_box` ingredients).  The analogous statements for the EPS and PDF token streams
+    (`judge_accepts_model_eps`, `judge_accepts_model_pdf`, over `psRun` / `pdfRun`) are stated and proved there too.
+    On the real code this statement is what `judge svg|eps|pdf|tex` evaluates document by document. -/
 def judge_accepts_model_svg : Prop :=
   ∀ (m : List (List Nat)) (b : Nat) (s : Rat), 0 < s → m ≠ [] → (∀ row ∈ m, row.length = m.length ∧ ∀ c ∈ row, c ≤ 1) →
     ∃ segs,
